@@ -204,6 +204,10 @@ func (m *TlvModel) GenReadFrom(buf *bytes.Buffer) error {
 						}
 						handled = true
 						err = reader.Skip(int(l))
+						{{- if (eq $.Model.Ordered true)}}
+						// an unrecognized element does not take the place of a field
+						progress --
+						{{- end}}
 					}
 					if err == nil && !handled {
 						{{- if (eq $.Model.Ordered true)}}
